@@ -84,6 +84,17 @@ func (db *Backend) metaBucket(tx *bolt.Tx) (*metaBucket, error) {
 	}, nil
 }
 
+// s3Bucket returns the bolt bucket that holds the objects of the S3 bucket
+// 'name', or nil if there is no such S3 bucket. The bolt bucket in which
+// gofakes3 keeps its own bookkeeping lives next to them but is not an S3 bucket:
+// it must not be listable, readable or writable through the S3 API.
+func (db *Backend) s3Bucket(tx *bolt.Tx, name string) *bolt.Bucket {
+	if name == string(db.metaBucketName) {
+		return nil
+	}
+	return tx.Bucket([]byte(name))
+}
+
 func (db *Backend) ListBuckets() ([]gofakes3.BucketInfo, error) {
 	var buckets []gofakes3.BucketInfo
 
@@ -141,7 +152,7 @@ func (db *Backend) ListBucket(name string, prefix *gofakes3.Prefix, page gofakes
 	objects := gofakes3.NewObjectList()
 
 	err := db.bolt.View(func(tx *bolt.Tx) error {
-		b := tx.Bucket([]byte(name))
+		b := db.s3Bucket(tx, name)
 		if b == nil {
 			return gofakes3.BucketNotFound(name)
 		}
@@ -285,7 +296,7 @@ func (db *Backend) ForceDeleteBucket(name string) error {
 
 func (db *Backend) BucketExists(name string) (exists bool, err error) {
 	err = db.bolt.View(func(tx *bolt.Tx) error {
-		b := tx.Bucket([]byte(name))
+		b := db.s3Bucket(tx, name)
 		exists = b != nil
 		return nil
 	})
@@ -305,7 +316,7 @@ func (db *Backend) GetObject(bucketName, objectName string, rangeRequest *gofake
 	var t boltObject
 
 	err := db.bolt.View(func(tx *bolt.Tx) error {
-		b := tx.Bucket([]byte(bucketName))
+		b := db.s3Bucket(tx, bucketName)
 		if b == nil {
 			return gofakes3.BucketNotFound(bucketName)
 		}
@@ -356,7 +367,7 @@ func (db *Backend) PutObject(
 	hash := md5.Sum(bts)
 
 	return result, db.bolt.Update(func(tx *bolt.Tx) error {
-		b := tx.Bucket([]byte(bucketName))
+		b := db.s3Bucket(tx, bucketName)
 		if b == nil {
 			return gofakes3.BucketNotFound(bucketName)
 		}
@@ -385,7 +396,7 @@ func (db *Backend) CopyObject(srcBucket, srcKey, dstBucket, dstKey string, meta 
 
 func (db *Backend) DeleteObject(bucketName, objectName string) (result gofakes3.ObjectDeleteResult, rerr error) {
 	return result, db.bolt.Update(func(tx *bolt.Tx) error {
-		b := tx.Bucket([]byte(bucketName))
+		b := db.s3Bucket(tx, bucketName)
 		if b == nil {
 			return gofakes3.BucketNotFound(bucketName)
 		}
@@ -398,7 +409,7 @@ func (db *Backend) DeleteObject(bucketName, objectName string) (result gofakes3.
 
 func (db *Backend) DeleteMulti(bucketName string, objects ...string) (result gofakes3.MultiDeleteResult, err error) {
 	err = db.bolt.Update(func(tx *bolt.Tx) error {
-		b := tx.Bucket([]byte(bucketName))
+		b := db.s3Bucket(tx, bucketName)
 		if b == nil {
 			return gofakes3.BucketNotFound(bucketName)
 		}
